@@ -40,6 +40,9 @@ type obs struct {
 	hwm      atomic.Int64
 	live     map[*f1testing.T]bool
 	shared   atomic.Bool
+	// failEvery > 0: every failEvery-th identifier's invocation ends as a failed one (marked, stopped
+	// or panicking, in turn): identifiers are handed out all the same, to failed iterations' successors too
+	failEvery int64
 }
 
 func (o *obs) enter(t *f1testing.T) {
@@ -67,6 +70,20 @@ func (o *obs) leave(t *f1testing.T) {
 	delete(o.live, t)
 	o.mu.Unlock()
 	o.inflight.Add(-1)
+	if o.failEvery > 0 {
+		if id, err := strconv.ParseInt(t.Iteration, 10, 64); err == nil && id%o.failEvery == 0 {
+			switch (id / o.failEvery) % 4 {
+			case 0:
+				t.Fail()
+			case 1:
+				t.FailNow()
+			case 2:
+				t.Require().True(false)
+			default:
+				panic("iteration " + t.Iteration + " panics")
+			}
+		}
+	}
 }
 
 func (o *obs) idsDesc() []int64 {
@@ -243,7 +260,7 @@ func rapidHistory(o *kit.Out, r *kit.Rand, emptyTicks bool) {
 func usersLimitHistory(o *kit.Out, r *kit.Rand) {
 	users := int(kit.Pick(r, 16, 32, 8))
 	limit := uint64(kit.Pick(r, int64(users), 3, int64(users)*2, 1))
-	ob := &obs{live: map[*f1testing.T]bool{}}
+	ob := &obs{live: map[*f1testing.T]bool{}, failEvery: 3}
 	stats := &progress.Stats{}
 	sc := &scenarios.Scenario{Name: "c03u", ScenarioFn: func(*f1testing.T) f1testing.RunFn {
 		return func(t *f1testing.T) { ob.enter(t); ob.leave(t) }
@@ -358,7 +375,7 @@ func racingCancelHistory(o *kit.Out, r *kit.Rand) {
 func limitHistory(o *kit.Out, r *kit.Rand) {
 	nw := int(kit.Pick(r, 1, 2, 3, 8))
 	limit := uint64(r.Range(1, 60))
-	ob := &obs{live: map[*f1testing.T]bool{}}
+	ob := &obs{live: map[*f1testing.T]bool{}, failEvery: 3}
 	m, pool, stats := newPool(nw, limit, func(t *f1testing.T) { ob.enter(t); ob.leave(t) })
 	ctx, cancel := context.WithCancel(context.Background())
 	defer cancel()
@@ -715,7 +732,7 @@ func TestC03Runs(t *testing.T) {
 		mode := runkit.Modes[i%len(runkit.Modes)]
 		limit := uint64(r.Range(1, 400))
 		conc := int(kit.Pick(r, 1, 2, 8, 32, 100))
-		ob := &obs{live: map[*f1testing.T]bool{}}
+		ob := &obs{live: map[*f1testing.T]bool{}, failEvery: 3}
 		var idChanged atomic.Int64
 		var counting atomic.Bool
 		counting.Store(true)
@@ -863,6 +880,11 @@ func TestC02Runs(t *testing.T) {
 		var mu sync.Mutex
 		var values []int64
 		calls := 0
+		stallAt := 0
+		if i%3 == 0 && nticks >= 4 {
+			stallAt = 2
+			o.Count("run", "ticking goroutine held up for more than two periods")
+		}
 		rateFn := func(time.Time) int {
 			mu.Lock()
 			defer mu.Unlock()
@@ -876,6 +898,11 @@ func TestC02Runs(t *testing.T) {
 			}
 			v := script[calls-1]
 			values = append(values, v)
+			if stallAt == calls {
+				// the ticking goroutine is held up for more than two periods (a slow rate function, a
+				// starved process): the tick it receives next is an old one - a request like any other
+				time.Sleep(40 * time.Millisecond)
+			}
 			return int(v)
 		}
 		ob := &obs{live: map[*f1testing.T]bool{}}
